@@ -36,6 +36,12 @@ pub struct FrontReq {
 #[derive(Clone, Debug, Serialize, Deserialize)]
 pub struct FrontCase {
     pub reqs: Vec<FrontReq>,
+    /// what is wrong in the AnyTLS leg (the front-end must then answer every request with a failure,
+    /// never with 'succeeded' / 200): 0 = nothing, 1 = the server refuses every stream with an
+    /// ordinary reason, 2 = with a reason no table of known texts will contain, 3 = the server drops
+    /// the connection when the SYN arrives, 4 = the server does not know the client's password
+    #[serde(default)]
+    pub fault: u8,
 }
 
 pub struct FrontFam;
@@ -153,12 +159,16 @@ impl Family for FrontFam {
             let reqs = (1..=32u16)
                 .map(|i| FrontReq { host: HostGen::Name((block * 32 + i).min(255), 0), port: Some(if i % 2 == 0 { 255 } else { 256 }), via: 0, delivery: (i % 3) as u8, cuts: vec![i * 1999, 65535 - i * 911], as_domain: false })
                 .collect();
-            v.push(FrontCase { reqs });
+            v.push(FrontCase { reqs, fault: 0 });
+        }
+        for fault in 1..=4u8 {
+            let reqs = (0..4u8).map(|via| FrontReq { host: HostGen::Name(12, 0), port: Some(8080), via, delivery: 0, cuts: vec![], as_domain: false }).collect();
+            v.push(FrontCase { reqs, fault });
         }
         v
     }
     fn strategy(&self, _tier: Tier) -> BoxedStrategy<FrontCase> {
-        proptest::collection::vec(req_strategy(), 1..8).prop_map(|reqs| FrontCase { reqs }).boxed()
+        (proptest::collection::vec(req_strategy(), 1..8), prop_oneof![5 => Just(0u8), 1 => Just(1u8), 1 => Just(2u8), 1 => Just(3u8), 1 => Just(4u8)]).prop_map(|(reqs, fault)| FrontCase { reqs, fault }).boxed()
     }
     fn case_budget_s(&self) -> u64 {
         180
@@ -168,8 +178,21 @@ impl Family for FrontFam {
         let c = case.clone();
         let r: Result<(), Fail> = run_real(async move {
             let case = c;
-            let beh = Behaviour { synack: true, echo: true, heartbeat: true, server_settings: true, ..Default::default() };
-            let srv = RefServer::start(PASSWORD, beh).await?;
+            let beh = Behaviour {
+                synack: true,
+                echo: true,
+                heartbeat: true,
+                server_settings: true,
+                synack_error: match case.fault {
+                    1 => Some(b"Failed to connect to 10.1.2.3:8080: Connection refused (os error 111)".to_vec()),
+                    2 => Some("quota exhausted \u{2014} try later".as_bytes().to_vec()),
+                    _ => None,
+                },
+                close_on_syn: case.fault == 3,
+                ..Default::default()
+            };
+            let srv = RefServer::start(if case.fault == 4 { "some other password" } else { PASSWORD }, beh).await?;
+            let fault_text = ["", "the server refuses every stream (connection refused)", "the server refuses every stream with an unusual reason", "the server drops the connection on SYN", "the server rejects the client's password"][case.fault.min(4) as usize];
             let quiet = anytls_rs::client::SessionPoolConfig { check_interval: Duration::from_secs(3600), idle_timeout: Duration::from_secs(7200), min_idle_sessions: 1 };
             let client = real_client(srv.addr, anytls_rs::padding::DEFAULT_PADDING_SCHEME, quiet)?;
             let socks = start_socks5(client.clone()).await?;
@@ -195,15 +218,28 @@ impl Family for FrontFam {
                         let mut all = vec![5u8, 1, 0];
                         all.extend_from_slice(&req);
                         send_cut(&mut s, &all, r.delivery, &r.cuts).await.map_err(|e| Fail::plain("C07.front", format!("{what}: write failed: {e}")))?;
-                        let (rep, closed) = read_until(&mut s, 20_000, |b| b.len() >= 2 + 10).await;
+                        let (rep, closed) = read_until(&mut s, 45_000, |b| b.len() >= 2 + 10).await;
                         ensure!(rep.len() >= 2 && rep[..2] == [5, 0], "C16.method", "{what}: method reply {:02x?} (closed: {closed})", &rep[..rep.len().min(2)]);
+                        if case.fault != 0 {
+                            ensure!(
+                                rep.len() >= 4 && rep[2] == 5 && rep[3] != 0,
+                                "C16.reply",
+                                "{what}: {fault_text}, so no tunnel exists; the front-end answered {:02x?} (closed: {closed}) - a failure code is required, 'succeeded' (00) never",
+                                &rep[2..]
+                            );
+                            continue;
+                        }
                         ensure!(rep.len() >= 4 && rep[2] == 5 && rep[3] == 0, "C16.reply", "{what}: no success reply although the reference server accepts every stream: the reply was {:02x?} (closed: {closed})", &rep[2..]);
                     }
                     1 => {
                         let req = format!("CONNECT {http_host}:{port} HTTP/1.1\r\nHost: {http_host}:{port}\r\n\r\n");
                         let req = if r.port.is_none() { format!("CONNECT {http_host} HTTP/1.1\r\nHost: {http_host}\r\n\r\n") } else { req };
                         send_cut(&mut s, req.as_bytes(), r.delivery, &r.cuts).await.map_err(|e| Fail::plain("C07.front", format!("{what}: write failed: {e}")))?;
-                        let (rep, closed) = read_until(&mut s, 20_000, |b| b.windows(4).any(|w| w == b"\r\n\r\n")).await;
+                        let (rep, closed) = read_until(&mut s, 45_000, |b| b.windows(4).any(|w| w == b"\r\n\r\n")).await;
+                        if case.fault != 0 {
+                            ensure!(!rep.starts_with(b"HTTP/1.1 200") && !rep.starts_with(b"HTTP/1.0 200"), "C17.connect", "{what}: {fault_text}, so no tunnel exists; CONNECT was answered {:?}", String::from_utf8_lossy(&rep[..rep.len().min(60)]));
+                            continue;
+                        }
                         ensure!(rep.starts_with(b"HTTP/1.1 200"), "C17.connect", "{what}: no success reply although the reference server accepts every stream: the reply was {:?} (closed: {closed})", String::from_utf8_lossy(&rep[..rep.len().min(60)]));
                     }
                     v => {
@@ -215,7 +251,11 @@ impl Family for FrontFam {
                         };
                         send_cut(&mut s, req.as_bytes(), r.delivery, &r.cuts).await.map_err(|e| Fail::plain("C07.front", format!("{what}: write failed: {e}")))?;
                         // the reference server echoes the forwarded request
-                        let (rep, closed) = read_until(&mut s, 20_000, |b| b.windows(4).any(|w| w == b"\r\n\r\n")).await;
+                        let (rep, closed) = read_until(&mut s, 45_000, |b| b.windows(4).any(|w| w == b"\r\n\r\n")).await;
+                        if case.fault != 0 {
+                            ensure!(!rep.starts_with(b"GET "), "C17.forward", "{what}: {fault_text}; something answered the request all the same: {:?}", String::from_utf8_lossy(&rep[..rep.len().min(60)]));
+                            continue;
+                        }
                         ensure!(
                             rep.starts_with(format!("GET /a/b?x=1&k={k} HTTP/1.1\r\n").as_bytes()),
                             "C17.forward",
@@ -268,6 +308,7 @@ impl Family for FrontFam {
             out.class_if(matches!(r.port, Some(p) if p >= 32768), "port>=32768");
             out.class_if(r.delivery == 1, "byte-at-a-time");
         }
+        out.class_if(case.fault != 0, "fault-in-the-anytls-leg");
         Ok(out)
     }
 }
